@@ -223,6 +223,8 @@ cbc_decrypt(br_sslrec_in_cbc_context *cc,
 	 */
 	good &= LE(len_nomac, 16384);
 
+	BR_VERIF_PUBLIC(&good, sizeof good);
+	BR_VERIF_PUBLIC(&len_nomac, sizeof len_nomac);
 	if (!good) {
 		return 0;
 	}
